@@ -13,7 +13,11 @@
    (key bytes, value) kept sorted by bytes.Compare; Get/Put/Delete by key; a cursor walks the
    sorted list ([bk_*], [cur_*]).  A read transaction (Store.Cursor callback) sees a frozen
    bucket; writing to the same bolt store from inside the callback is not something drand does
-   (it can deadlock on bbolt's remap lock) and is answered [OBad] without effect. *)
+   (it can deadlock on bbolt's remap lock) and is answered [OBad] without effect.
+   Closing a bolt store and opening the same file again (a daemon restart: NewBoltStore's format
+   probe, then the untrimmed or trimmed store) is the identity on the bucket: the state of the
+   models survives it unchanged, so a case file simply continues its operation sequence across a
+   reopen (engine histories "reopen" / "reopen-contended"; stack: ERestart). *)
 From Coq Require Import ZArith List Bool.
 Import ListNotations.
 Open Scope Z_scope.
